@@ -77,6 +77,15 @@ CHECKS["C07"] = dict(
     note="Trusts the reference interpreter (C01), the recording transport, time.time() of the harness process (+-2 s).",
     design="DESIGN.md section 4 C07")
 
+CHECKS["C10"] = dict(
+    technique="Hypothesis-generated execution histories (other pipelines between two executions of the same configuration, fresh vs reused Pipeline object); differential oracle traced vs untraced; round-trip oracle on normalised JSONL of two traced runs",
+    text=("Generated-input search over histories (3.5k histories quick, 33k thorough): (a) attaching JsonlTraceDriver at any detail "
+          "level must not change returned data/context, exception type/text, failing node index, intermediate published states or sink "
+          "files; (b) the two traces of the same configuration must be identical after removing run id, timestamps, durations and "
+          "sequence numbers, whatever ran in between and whether or not the Pipeline object is reused."),
+    note="Trusts the recording transport and the JSON reader; the set of volatile fields is the documented one and nothing else is masked.",
+    design="DESIGN.md section 4 C10")
+
 NOT_YET = {}
 
 
